@@ -197,8 +197,9 @@ fn run_reader_ops<I: Iterator<Item = u8>>(mut it: BitIter<I>, ops: &[&str]) -> V
                         match read_nat_ty(&mut it, parts[1], parse_bound(parts[2])) {
                             Ok(m) => out.extend([0, m, it.n_total_read() as u128]),
                             Err(e) => {
+                                // the failed call has consumed the bits it looked at; go on
                                 out.extend(e);
-                                return out;
+                                out.push(it.n_total_read() as u128);
                             }
                         }
                     }
